@@ -68,6 +68,8 @@ var c07Scripts = []c07Script{
 	{"if/else then empty loop", "out := 0; if limit >= 0 { out = limit * 3 } else { if out == 0 { out = 1 } else { out = 2 }; for { } }", func(l int64) string { return fmt.Sprintf("i%d", l*3) }, false},
 	{"break then empty loop", "out := 0; if limit >= 0 { out = limit + 5 } else { for { out++; if out > 3 { break } }; for { } }", func(l int64) string { return fmt.Sprintf("i%d", l+5) }, false},
 	{"empty loops in a function", "spin := func(n) { if n > 0 { n = 1 } else { n = 2 }; for { continue } }; out := 0; if limit >= 0 { out = limit } else { spin(1) }", func(l int64) string { return fmt.Sprintf("i%d", l) }, false},
+	{"return-form then statement-form tail recursion", "cnt := 0; h := func(n) { if limit >= 0 && n >= limit { return }; cnt++; h(n + 1) }; f := func(n, acc) { if n >= 5 { return acc }; return f(n + 1, acc + n) }; pre := f(0, 0); h(0); out := pre * 1000 + cnt", func(l int64) string { return fmt.Sprintf("i%d", 10000+l) }, false},
+	{"nested calls three deep", "c3 := func(x) { for limit < 0 { x++ }; return x + 1 }; c2 := func(x) { return c3(x) + 1 }; c1 := func(x) { return c2(x) + 1 }; out := c1(limit) + c1(1)", func(l int64) string { return fmt.Sprintf("i%d", l+3+4) }, false},
 	{"non-tail recursion inside loop", "r := func(n) { return n <= 0 ? 0 : 1 + r(n - 1) }; out := 0; for limit < 0 || out < limit { out += r(5) - 4 }", func(l int64) string { return fmt.Sprintf("i%d", l) }, false},
 }
 
@@ -382,19 +384,40 @@ func (c *c07) RunCase(r *fw.Rec, cs fw.Case) {
 }
 
 // vmReuse drives the VM API directly: Run, Abort, Run on one VM.
-func (c *c07) vmReuse(r *fw.Rec, rng *rand.Rand) {
-	src := "out := 0; for i := 0; limit < 0 || i < limit; i++ { out += i }"
+func (c *c07) vmReuse(r *fw.Rec, rng *rand.Rand) { vmReuseAfterAbort(r, rng) }
+
+// vmReuseAfterAbort: NewVM once; the first Run (a script that never ends, limit = -1) is aborted at a logical instant —
+// from inside the VM goroutine when the k-th instruction is dispatched, i.e. at any call depth and in any frame state —
+// and the same VM then runs the script again with a finite limit. VM.Run resets the machine, so the second run must
+// behave like a run on a fresh VM: no error, the expected result, an empty operand stack. (Shared by C07, C02 and C16.)
+func vmReuseAfterAbort(r *fw.Rec, rng *rand.Rand) {
+	var sc c07Script
+	for {
+		sc = pick(rng, c07Scripts)
+		if !sc.fails {
+			break
+		}
+	}
+	src := sc.src
 	rc, err := compileRaw([]byte(src), map[string]tengo.Object{"limit": &tengo.Int{Value: -1}}, nil)
 	if err != nil {
+		r.Inc("harness-compile-error")
 		return
 	}
 	globals := rc.Globals
 	vm := tengo.NewVM(rc.BC, globals, -1)
 	k := int64(1 + rng.Intn(5000))
-	early := rng.Intn(3) == 0
+	if rng.Intn(3) == 0 {
+		k = int64(1 + rng.Intn(60))
+	}
+	early := rng.Intn(4) == 0
 	var count int64
+	maxFrame := 0
 	installProbe(&probeState{userProbe: func(v *tengo.VM) {
 		count++
+		if fi := v.VerifFrameIndex(); fi > maxFrame {
+			maxFrame = fi
+		}
 		if count == k {
 			v.Abort() // a host aborting from another place at a logical instant
 		}
@@ -409,9 +432,10 @@ func (c *c07) vmReuse(r *fw.Rec, rng *rand.Rand) {
 	removeProbe()
 	r.Eval()
 	r.Inc("vm-reuse")
-	detail := map[string]interface{}{"script": src, "abort_at_instruction": k, "abort_before_run": early, "first_run_error": fmt.Sprint(e1), "first_run_instructions": count}
+	r.Inc(fmt.Sprintf("vm-reuse:aborted-at-frame-depth:%d", min(maxFrame, 4)))
+	detail := map[string]interface{}{"script": src, "family": sc.name, "abort_at_instruction": k, "abort_before_run": early, "first_run_error": fmt.Sprint(e1), "first_run_instructions": count}
 	if _, ok := isPanic(e1); ok {
-		r.Violate("vmreuse:abort-ignored", "VM.Abort did not stop an infinite loop", detail)
+		r.Violate("vmreuse:abort-ignored", "VM.Abort did not stop a script that never ends", detail)
 		return
 	}
 	if early && count > 1 {
@@ -419,23 +443,32 @@ func (c *c07) vmReuse(r *fw.Rec, rng *rand.Rand) {
 		return
 	}
 	// second run on the same VM with a finite limit must execute fully
-	globals[rc.Index["limit"]] = &tengo.Int{Value: 10}
-	count = 0
-	installProbe(&probeState{userProbe: func(v *tengo.VM) { count++ }})
-	e2 := safely(func() error { return vm.Run() })
-	removeProbe()
-	r.Eval()
-	out := "nil"
-	if o := globals[rc.Index["out"]]; o != nil {
-		out = canon(o)
+	for _, lim := range []int64{10, 3} {
+		globals[rc.Index["limit"]] = &tengo.Int{Value: lim}
+		count = 0
+		installProbe(&probeState{userProbe: func(v *tengo.VM) { count++ }})
+		e2 := safely(func() error { return vm.Run() })
+		removeProbe()
+		r.Eval()
+		out := "nil"
+		if o := globals[rc.Index["out"]]; o != nil {
+			out = canon(o)
+		}
+		detail["rerun_limit"] = lim
+		detail["rerun_error"] = fmt.Sprint(e2)
+		detail["rerun_out"] = out
+		detail["rerun_want"] = sc.finite(lim)
+		if e2 != nil || out != sc.finite(lim) {
+			r.Violate("vmreuse:stale-state:"+sc.name, "a VM that was aborted does not run correctly afterwards (state of the aborted run survives VM.Run's reset)", detail)
+			return
+		}
+		if !vm.IsStackEmpty() {
+			r.Violate("vmreuse:stack-not-empty:"+sc.name, "a re-run of an aborted VM ended without error but left the operand stack non-empty", detail)
+			return
+		}
 	}
-	detail["second_run_error"] = fmt.Sprint(e2)
-	detail["second_run_out"] = out
-	if e2 != nil || out != "i45" {
-		r.Violate("vmreuse:stale-abort", "a VM that was aborted does not run correctly afterwards (stale abort flag)", detail)
-		return
-	}
-	r.Distinct("vmreuse", fmt.Sprint(k), fmt.Sprint(early))
+	r.Inc("vm-reuse-reruns-checked")
+	r.Distinct("vmreuse", sc.name, fmt.Sprint(k), fmt.Sprint(early))
 }
 
 func (c *c07) Finish(m *fw.Merged, tier string) {
